@@ -97,6 +97,11 @@ pub struct ExPlan {
     /// the library's parser should accept the packet.
     #[serde(default)]
     pub malformed_replies: Vec<u32>,
+    /// Every reply frame is the reference encoding of a legal packet of the command's reply set
+    /// (set by the families that build their scripts from `seqs::reply_frame` only): while no fault is
+    /// labelled, a parser that refuses one of them is wrong - the library is not asked for its opinion.
+    #[serde(default)]
+    pub wellformed: bool,
     /// Label of the injected fault (for signatures / evidence).
     pub fault: String,
 }
@@ -116,6 +121,7 @@ impl ExPlan {
             paced_cuts: vec![],
             paced_gaps_ms: vec![],
             malformed_replies: vec![],
+            wellformed: false,
             fault: String::new(),
         }
     }
@@ -425,7 +431,11 @@ pub fn predict_with(plan: &ExPlan, ack_with_data_is_positive: bool) -> Result<Pr
             return Ok(p);
         }
         if plan.malformed_replies.contains(&k) || !seqs::library_parses(plan.seq, frame)? {
-            p.error = Some("undecodable_body");
+            p.error = Some(if plan.wellformed && plan.fault.is_empty() && !plan.malformed_replies.contains(&k) {
+                "wellformed_reply_refused"
+            } else {
+                "undecodable_body"
+            });
             return Ok(p);
         }
         if plan.epipe_at == Some(k + 1) {
@@ -651,6 +661,16 @@ fn run_and_judge_with(plan: &ExPlan, want_trace: bool, ack_with_data_is_positive
             "panic",
             format!("{}@{}", info.name, crate::framework::panic_sig(loc, msg)),
             format!("client panicked at {loc}: {msg}"),
+        );
+        return out;
+    }
+    if pred.error == Some("wellformed_reply_refused") {
+        let k = pred.ok_frames.len();
+        let f = plan.replies.get(k).cloned().unwrap_or_default();
+        out.fail(
+            "wellformed_reply_refused",
+            format!("{}/{:02x}{:02x}", info.name, f.first().copied().unwrap_or(0), f.get(1).copied().unwrap_or(0)),
+            format!("reply {k} ({}) is the reference encoding of a legal packet of the reply set, but the library's parser refuses it", crate::conn::hex(&f[..f.len().min(48)])),
         );
         return out;
     }
